@@ -479,6 +479,55 @@ impl World {
     }
 }
 
+impl World {
+    /// The recurring parent refresh had its turn: every CA syncs with every
+    /// parent (top-down, two rounds), pumping in between.
+    pub fn settle(&self) -> Result<Vec<String>, String> {
+        let mut tasks = self.pump()?;
+        for _round in 0..2 {
+            let cm = self.krill.ca_manager();
+            let mut cas: Vec<(usize, String, Vec<String>)> = Vec::new();
+            for h in cm.ca_handles().unwrap_or_default() {
+                if let Ok(c) = cm.get_ca(&h) {
+                    let parents: Vec<String> =
+                        c.parents().map(|p| p.to_string()).collect();
+                    cas.push((0, h.to_string(), parents));
+                }
+            }
+            // depth = distance from the TA through local parents
+            let names: Vec<(String, Vec<String>)> =
+                cas.iter().map(|c| (c.1.clone(), c.2.clone())).collect();
+            for c in cas.iter_mut() {
+                c.0 = depth_of(&c.1, &names, 0);
+            }
+            cas.sort();
+            for (_, name, parents) in &cas {
+                for p in parents {
+                    let _ = self.sync_parent(name, p);
+                }
+                tasks.extend(self.pump()?);
+            }
+        }
+        Ok(tasks)
+    }
+}
+
+fn depth_of(name: &str, all: &[(String, Vec<String>)], guard: usize) -> usize {
+    if guard > 8 {
+        return guard;
+    }
+    let Some((_, parents)) = all.iter().find(|c| c.0 == name) else {
+        return 0;
+    };
+    parents
+        .iter()
+        .map(|p| {
+            if p == "ta" { 1 } else { 1 + depth_of(p, all, guard + 1) }
+        })
+        .max()
+        .unwrap_or(0)
+}
+
 //------------ standard topologies -------------------------------------------
 
 pub const PARENT_RES: (&str, &str, &str) =
